@@ -3,7 +3,8 @@
    Sem/FsCheck.v (wt_fs, unique_binders, ids_bounded), Sem/AxCheck.v, Sem/AxSem.v, Sem/CoreSem.v;
    proofs in Proof/ShrinkProof.v. *)
 From Coq Require Import List ZArith NArith String Bool.
-From SCC Require Import Lang.CoreSyn Lang.AxSyn Sem.FsCheck Model.Shrink Proof.ShrinkProof.
+From SCC Require Import Lang.CoreSyn Lang.AxSyn Sem.AxSem Sem.FsCheck Sem.AxCheck Model.Shrink Proof.ShrinkProof Proof.ShrinkSem Proof.ShrinkExample.
+From SCC Require Sem.CoreSem.
 Import ListNotations.
 
 (* On a well-typed focused program shrinking never panics: the final `panic!("cannot happen")` of
@@ -125,3 +126,51 @@ Theorem C04_lift_label_fresh : forall p q,
   NoDup (map (fun d => show_ident (dname d)) (pdefs q)).
 Proof. exact lift_label_fresh. Qed.
 Print Assumptions C04_lift_label_fresh.
+
+(* SEMANTIC PRESERVATION.  Full statement (the property C04):
+
+     shrink_correct : forall p q n args o,
+       wt_fs p = true -> unique_binders p = true -> shrink_prog p = SOk q ->
+       CoreSem.run_fs n p args = o -> good o ->            (* the Core run ends with exit / undefined arithmetic *)
+       exists m, run_named m q args = o.
+
+   Proved below for the FIRST-ORDER INTEGER FRAGMENT only ([frag_prog]: literal and operation against
+   mu~, ifc, print, exit, calls with integer producer arguments; identifiers with the same id have
+   the same name, which `uniquify` guarantees).  GAP: every construct that involves a consumer -
+   integer continuations (_Cont/Ret: literal/operation/variable against a covariable, critical pairs at
+   i64), renaming cuts, data and codata (let/switch/create/invoke, known cuts), eta expansion of unknown
+   cuts and critical pairs, lifted statements.  For the full language the statement is CHECKED on every
+   run of ./check C04: Core machine on the focused input = AxCut machine on the Rust output (= model
+   output) for every corpus and generated program and argument tuple. *)
+Theorem C04_shrink_correct_partial : forall p q n args o,
+  frag_prog p = true ->
+  (forall d, In d (fspdefs p) -> consistent (cvars (fsdctx d) ++ idents (fsdbody d))) ->
+  shrink_prog p = SOk q ->
+  CoreSem.run_fs n p args = o -> good o ->
+  exists m, run_named m q args = o.
+Proof. exact shrink_correct_partial. Qed.
+Print Assumptions C04_shrink_correct_partial.
+
+(* the preconditions are satisfiable on a real program (examples/Tuples/Tuples.sc, focused by the real
+   pipeline, read back by the Coq reader): wt_fs, unique_binders, ids_bounded hold; the model shrinks
+   it to a program that passes wt_ax; both machines print 2 and exit with 0 *)
+Theorem C04_example_real_program_wt :
+  match tuples_focused with
+  | Some p => wt_fs p && unique_binders p && ids_bounded p
+  | None => false
+  end = true.
+Proof. exact tuples_wt_fs. Qed.
+Print Assumptions C04_example_real_program_wt.
+Theorem C04_example_real_program_shrinks :
+  match tuples_focused with
+  | Some p =>
+      match shrink_prog p with
+      | SOk q => wt_ax q
+                 && obs_eqb (run_named 1000 q []) ([(true, 2%Z)], OExit 0)
+                 && obs_eqb (CoreSem.run_fs 5000 p []) ([(true, 2%Z)], OExit 0)
+      | SErr _ => false
+      end
+  | None => false
+  end = true.
+Proof. exact tuples_shrunk_ok. Qed.
+Print Assumptions C04_example_real_program_shrinks.
